@@ -435,7 +435,7 @@ Proof.
   rewrite E0 in A. rewrite A.
   destruct e.
   { apply fin_eof; auto. lia. }
-  specialize (D eq_refl).
+  specialize (D eq_refl). unfold lex_dispatch.
   destruct p1 as [o1 rp]. cbn [po pr] in *. destruct o1 as [|o]; [lia|]. cbn [pred] in D.
   unfold vp in D, B. cbn [po pr] in D, B.
   assert (LO : po (lp l) <= o) by lia.
